@@ -303,6 +303,8 @@ func FieldProv(v ssa.Value) string {
 		return types.TypeString(st, func(*types.Package) string { return "" }) + "." + fieldName(x.X.Type(), x.Field)
 	case *ssa.MakeInterface:
 		return FieldProv(x.X)
+	case *ssa.TypeAssert:
+		return FieldProv(x.X)
 	case *ssa.Extract:
 		if call, ok := x.Tuple.(*ssa.Call); ok {
 			return fmt.Sprintf("%s()#%d", lastSeg(ShortCallee(&call.Call)), x.Index)
